@@ -12,7 +12,9 @@ A source-level templated grammar `<src>` is the token stream
   pred: `-` | `E p v` | `N pred` | `A k pred*k` | `O k pred*k`
   sym : `T a` | `R m k {p V v | p F q}*k`        (explicit arguments only)
 
-  inst <src> :: err | fatal | <plain grammar, six tokens of CFG.parseGrammar>
+  inst <quirks> <src> :: err | fatal | <plain grammar, six tokens of CFG.parseGrammar>
+        <quirks> = AS | A- | -S | -- : which of the two mirrored defects of PropagateLookaheads (requiredFlags Aliasing, entryPoints
+        Short-circuit) the real code showed on the harness' probes; the mirror reproduces exactly those
         the mirror pipeline (resolveAll, propagate, instantiate) is run on <src>; answer `match` when
         its status equals the real one and, for `ok`, the instantiated rules are the real ones up to
         the naming of nonterminals and the order of nonterminal blocks (both grammars are renamed by
@@ -273,10 +275,18 @@ def showStatus : Status → String
 
 def fuelOf (_g : TGrammar) : Nat := 4000
 
+def parseQuirks (t : String) : Option Quirks :=
+  if t == "AS" then some ⟨true, true⟩ else if t == "A-" then some ⟨true, false⟩
+  else if t == "-S" then some ⟨false, true⟩ else if t == "--" then some ⟨false, false⟩ else none
+
 def handleInst (needCert : Bool) (srcToks realToks : List String) : Option String := do
+  let (qt, srcToks) ← match srcToks with
+    | t :: r => some (t, r)
+    | [] => none
+  let q ← parseQuirks qt
   let (src, rest) ← parseSrc srcToks
   if !rest.isEmpty then none
-  let (st, out, cert) := compile src (fuelOf src)
+  let (st, out, cert) := compile q src (fuelOf src)
   match realToks with
   | ["err"] => pure (if st == .err then "match" else s!"differ mirror={showStatus st} real=err")
   | ["fatal"] => pure (if st == .fatal then "match" else s!"differ mirror={showStatus st} real=fatal")
@@ -297,7 +307,7 @@ def firstDiff (a b : List Word) : Option (Word × Bool) :=
   | none => (b.find? (fun w => !a.contains w)).map fun w => (w, false)
 
 def handleJudge (srcToks realToks : List String) : Option String := do
-  let (src, _) ← parseSrc srcToks
+  let (src, _) ← parseSrc (srcToks.drop 1)
   match realToks with
   | ["err"] | ["fatal"] => pure "holds"
   | _ =>
